@@ -9,6 +9,7 @@ import (
 	"log/slog"
 	"maps"
 	"sync"
+	"sync/atomic"
 	"time"
 
 	"github.com/pion/interceptor"
@@ -133,10 +134,9 @@ func (f *InterceptorFactory) NewInterceptor(id string) (interceptor.Interceptor,
 		interceptor.loggerFactory = logging.NewDefaultLoggerFactory()
 	}
 	interceptor.log = interceptor.loggerFactory.NewLogger("pacer_interceptor")
-	interceptor.limit = interceptor.pacerFactory(
-		interceptor.initialRate,
-		burst(interceptor.initialRate, interceptor.interval),
-	)
+	initialBurst := burst(interceptor.initialRate, interceptor.interval)
+	interceptor.limit = interceptor.pacerFactory(interceptor.initialRate, initialBurst)
+	interceptor.burst.Store(int64(initialBurst))
 	interceptor.queue = make(chan packet, interceptor.queueSize)
 
 	f.interceptors[id] = interceptor
@@ -165,6 +165,7 @@ type Interceptor struct {
 
 	// limiter and queue
 	limit pacer
+	burst atomic.Int64 // current bucket size of limit in bits
 	queue chan packet
 
 	// shutdown
@@ -187,7 +188,9 @@ func burst(rate int, interval time.Duration) int {
 
 // setRate updates the pacing rate and burst of the rate limiter.
 func (i *Interceptor) setRate(r int) {
-	i.limit.SetRate(r, burst(r, i.interval))
+	b := burst(r, i.interval)
+	i.limit.SetRate(r, b)
+	i.burst.Store(int64(b))
 }
 
 // BindLocalStream implements interceptor.Interceptor.
@@ -237,8 +240,15 @@ func (i *Interceptor) loop() {
 	for {
 		select {
 		case now := <-ticker.C:
-			for len(queue) > 0 && i.limit.Budget(now) > 8*float64(queue[0].len()) {
-				i.limit.AllowN(now, 8*queue[0].len())
+			for len(queue) > 0 {
+				// The bucket never holds more than burst tokens: a packet of burst or
+				// more bits is sent as soon as the bucket is full and empties it,
+				// instead of blocking the queue forever.
+				need := min(8*queue[0].len(), int(i.burst.Load()))
+				if i.limit.Budget(now) < float64(need) {
+					break
+				}
+				i.limit.AllowN(now, need)
 				var next packet
 				next, queue = queue[0], queue[1:]
 				if _, err := next.writer.Write(next.header, next.payload, next.attributes); err != nil {
